@@ -258,6 +258,11 @@ func TestVerifHs13Masks(t *testing.T) {
 		}
 		fin := hs13Find(hs13Canon(t, v), hs13IsServerFinalAck)
 		early := hs13Opt{ServerWrites: 3, Limit: 200 * time.Second}
+		if len(fin) == 0 { // the fault-free run of this variant does not get that far: judged by the plain masks
+			jobs = append(jobs, hs13Job{v, nil, early})
+
+			continue
+		}
 		jobs = append(jobs, hs13Job{v, nil, early}, hs13Job{v, hs13MaskAt(fin, "drop"), early},
 			hs13Job{v, hs13MaskAt(fin, "late:1500"), early}, hs13Job{v, hs13MaskAt(fin[:1], "drop"), early})
 	}
